@@ -3,6 +3,7 @@
 (* C18: call histories on one Solver object.  After the MC_Solver build    *)
 (* actions TLC explores every finite sequence over                         *)
 (*     {solve, get_results, get_results_short, get_results_long, get_debug} *)
+(* (plus "other": a call on another Solver object of the same process)      *)
 (* that starts with solve, up to MaxCalls calls.  Getters are read-only     *)
 (* (action property GettersReadOnly); solving again starts from the same    *)
 (* admissible set, hence yields the same status and the same frozen values  *)
@@ -42,7 +43,18 @@ CallGet(kind) ==
     /\ calls' = Append(calls, kind)
     /\ UNCHANGED first /\ Keep
 
+(* A call on ANOTHER Solver object of the same process (its construction, a solve, its getters): objects do   *)
+(* not share state, so this object's state - hence what its getters return - is unchanged.  Recorded in the   *)
+(* history as "other"; the replay keeps a second object on a different instance alive and calls it here.       *)
+CONSTANT Others      \* TRUE: histories may contain calls on another object
+CallOther ==
+    /\ Others /\ Len(calls) < MaxCalls /\ Len(calls) >= 1 /\ phase = "solved"
+    /\ calls[Len(calls)] # "other"
+    /\ calls' = Append(calls, "other")
+    /\ UNCHANGED <<svars, first>> /\ Keep
+
 HNext ==
+    \/ CallOther
     \/ ((AddStudent \/ AddProject \/ AddLecturer \/ ChooseSided \/ AddList \/ AddCrit \/ EndCrits \/ ChooseOpts)
         /\ UNCHANGED <<calls, first>>)
     \/ (Built /\ Construct /\ UNCHANGED <<b, style, block, calls, first>>)
